@@ -387,6 +387,77 @@ func (g *gen) manualGradient() {
 	g.emit(Op{K: KClosePathEndPath})
 }
 
+// dirtyAll writes every colour and number register through incrementing
+// writes and leaves the selectors somewhere arbitrary (C17's program A).
+func (g *gen) dirtyAll() {
+	t := g.t
+	g.emit(Op{K: KSetCSel, U: uint8(t.Intn(64))})
+	g.emit(Op{K: KSetNSel, U: uint8(t.Intn(64))})
+	off := 0
+	for i := 0; i < 64; i++ {
+		g.emit(Op{K: KSetCReg, Incr: true, C: ivg.RGBAColor(genRGBA(t, t.Pick(2, 1, 1, 2, 2)))})
+		// strictly increasing offsets in [0,1]: whatever window a later gradient
+		// reads, stale registers would make it valid
+		g.emit(Op{K: KSetNReg, Incr: true, F: [6]float32{float32(off) / 1024}})
+		off += 1 + t.Intn(15)
+	}
+	g.emit(Op{K: KSetCSel, U: 63})
+	g.emit(Op{K: KSetNSel, U: 63})
+}
+
+// readUnset fills a path from registers the program itself never wrote: a
+// plain register, or a gradient whose stops and matrix lie in registers it
+// never set (C17's program B: on a fresh object these read the palette and
+// zeros; on a dirty one they would read the previous graphic).
+func (g *gen) readUnset() {
+	t := g.t
+	if t.Bool() { // otherwise the selector itself is read before it is written
+		g.emit(Op{K: KSetCSel, U: uint8(t.Intn(64))})
+	}
+	if t.Chance(1, 4) {
+		g.relativeGradient()
+		return
+	}
+	if t.Bool() {
+		nStops := 2 + t.Intn(5)
+		g.emit(Op{K: KSetCReg, U: 0, C: ivg.RGBAColor(ivg.EncodeGradient(uint8(t.Intn(64)), uint8(t.Intn(64)), uint8(t.Intn(2)), uint8(t.Intn(4)), uint8(nStops)))})
+		g.emit(Op{K: KStartPath, U: 0, F: [6]float32{g.coord(), g.coord()}})
+	} else {
+		g.emit(Op{K: KStartPath, U: g.adj(), F: [6]float32{g.coord(), g.coord()}})
+	}
+	k := []Kind{KRelSmoothQuadTo, KAbsSmoothQuadTo, KRelSmoothCubeTo, KAbsSmoothCubeTo, KRelLineTo, KAbsLineTo}[t.Intn(6)]
+	g.emit(g.drawOp(k))
+	g.emit(g.drawOp(KAbsLineTo))
+	g.emit(Op{K: KClosePathEndPath})
+}
+
+// relativeGradient builds a gradient without ever setting a selector: the
+// matrix and the stops go through incrementing writes from wherever the
+// selectors are, and the gradient colour names the registers those writes
+// hit when the selectors started at zero, as they do on a fresh object.
+func (g *gen) relativeGradient() {
+	t := g.t
+	for i := 0; i < 6; i++ {
+		v := float32(t.Range(-64, 64)) / 64
+		if i == 0 || i == 4 {
+			v = float32(1+t.Intn(16)) / 64
+		}
+		g.emit(Op{K: KSetNReg, Incr: true, F: [6]float32{v}})
+	}
+	nStops := 2 + t.Intn(3)
+	off := 0
+	for i := 0; i < nStops; i++ {
+		g.emit(Op{K: KSetCReg, Incr: true, C: ivg.RGBAColor(genRGBA(t, t.Pick(2, 1, 1, 2, 2)))})
+		g.emit(Op{K: KSetNReg, Incr: true, F: [6]float32{float32(off) / 1024}})
+		off += 1 + t.Intn(1024/nStops)
+	}
+	g.emit(Op{K: KSetCReg, U: 0, C: ivg.RGBAColor(ivg.EncodeGradient(0, 6, uint8(t.Intn(2)), uint8(1+t.Intn(3)), uint8(nStops)))})
+	g.emit(Op{K: KStartPath, U: 0, F: [6]float32{g.coord(), g.coord()}})
+	g.emit(g.drawOp(KAbsLineTo))
+	g.emit(g.drawOp(KAbsLineTo))
+	g.emit(Op{K: KClosePathEndPath})
+}
+
 func (g *gen) stops() []generate.GradientStop {
 	t := g.t
 	n := t.Range(2, 5)
@@ -547,8 +618,16 @@ func GenProgram(t *tape.Tape, cfg GenCfg) []Op {
 		max = 12
 	}
 	n := t.Range(1, max)
+	wDirty, wUnset := 0, 0
+	if cfg.Dirty {
+		wDirty = 1
+	}
+	if cfg.ReadFirst {
+		wUnset = 4
+		g.readUnset()
+	}
 	for i := 0; i < n; i++ {
-		switch t.Pick(g.wSel+g.wCReg+g.wNReg, g.wPath, g.wGrad, g.wHelper) {
+		switch t.Pick(g.wSel+g.wCReg+g.wNReg, g.wPath, g.wGrad, g.wHelper, wDirty, wUnset) {
 		case 0:
 			g.styling()
 		case 1:
@@ -557,7 +636,16 @@ func GenProgram(t *tape.Tape, cfg GenCfg) []Op {
 			g.manualGradient()
 		case 3:
 			g.helper()
+		case 4:
+			g.dirtyAll()
+			wDirty = 0
+		case 5:
+			g.readUnset()
 		}
+	}
+	if cfg.Dirty && t.Chance(1, 2) {
+		// leave LOD bounds that would disable every path of a later graphic
+		g.emit(Op{K: KSetLOD, F: [6]float32{float32(1000 + t.Intn(1000)), float32(3000)}})
 	}
 	return g.ops
 }
